@@ -219,6 +219,53 @@ func randomTuple(r *rec.Rand, s *scen.Scenario) (scen.Tuple, bool) {
 	return scen.Tuple{}, false
 }
 
+// directedTuple: a direct grant of some relation of a probe's object (or of an object one hop above
+// it) to the probe's user: such writes and deletes flip the correct answer of the probe.
+func directedTuple(r *rec.Rand, s *scen.Scenario, probes []Probe) (scen.Tuple, bool) {
+	for tries := 0; tries < 20; tries++ {
+		pr := probes[r.Intn(len(probes))]
+		if pr.Bad || !strings.HasPrefix(pr.User, "user:u") {
+			continue
+		}
+		typ := pr.Type
+		obj := pr.Obj
+		if pr.API == 2 {
+			obj = oid(typ, r.Intn(nIDs))
+		} else {
+			typ, _ = scen.SplitObj(pr.Obj)
+		}
+		user := pr.User
+		if pr.API == 3 {
+			user = oid("user", r.Intn(nIDs))
+		}
+		td := s.Type(typ)
+		if td == nil {
+			continue
+		}
+		if r.Chance(1, 3) {
+			// one hop above: an object this object points to through a present-or-future parent tuple
+			td2 := s.Types[r.Intn(len(s.Types))]
+			if len(td2.Rels) == 0 {
+				continue
+			}
+			td = &td2
+			obj = oid(td.Name, r.Intn(nIDs))
+		}
+		rd := td.Rels[r.Intn(len(td.Rels))]
+		for _, rs := range rd.Restr {
+			if rs.Type == "user" && rs.Kind == scen.KObj {
+				t := scen.Tuple{Obj: obj, Rel: rd.Name, User: user}
+				if rs.Cond != "" {
+					t.Cond = rs.Cond
+					t.Ctx = map[string]any{"x": 1}
+				}
+				return t, true
+			}
+		}
+	}
+	return scen.Tuple{}, false
+}
+
 // ---- probes -------------------------------------------------------------------------------------
 
 type Probe struct {
@@ -260,7 +307,7 @@ func genProbes(r *rec.Rand, s *scen.Scenario) []Probe {
 	var ps []Probe
 	users := []string{"user:u0", "user:u1", "user:u2"}
 	seen := map[string]bool{}
-	nCheck := r.Range(6, 9)
+	nCheck := r.Range(4, 7)
 	for len(ps) < nCheck {
 		tr := rels[r.Intn(len(rels))]
 		// prefer the derived relations (the later ones of a type)
@@ -357,8 +404,14 @@ func makePlan(sub uint64, cfgIdx int, tier string) *Plan {
 			order = append(order, t.Key())
 		}
 	}
-	for i, n := 0, r.Range(6, 14); i < n; i++ {
-		if t, ok := randomTuple(r, p.scen); ok {
+	draw := func() (scen.Tuple, bool) {
+		if r.Chance(1, 2) {
+			return directedTuple(r, p.scen, p.probes)
+		}
+		return randomTuple(r, p.scen)
+	}
+	for i, n := 0, r.Range(10, 18); i < n; i++ {
+		if t, ok := draw(); ok {
 			add(t)
 		}
 	}
@@ -397,7 +450,7 @@ func makePlan(sub uint64, cfgIdx int, tier string) *Plan {
 				}
 			}
 			for i, n := 0, r.Range(0, 3); i < n || (len(op.Dels) == 0 && len(op.Writes) == 0); i++ {
-				t, ok := randomTuple(r, p.scen)
+				t, ok := draw()
 				if !ok {
 					break
 				}
@@ -481,6 +534,9 @@ func ctProto(ts []scen.Tuple) *openfgav1.ContextualTupleKeys {
 }
 
 func errAnswer(err error) string {
+	if os.Getenv("C10_DEBUG") != "" {
+		fmt.Fprintf(os.Stderr, "  error: %v\n", err)
+	}
 	return fmt.Sprintf("err:%d", int(status.Code(err)))
 }
 
@@ -523,7 +579,15 @@ func (x *runner) batch(ctx context.Context, ps []Probe, cons int) []string {
 		case it == nil:
 			out[i] = "err:missing"
 		case it.GetError() != nil:
-			out[i] = fmt.Sprintf("err:item:%d:%d", it.GetError().GetInputError(), it.GetError().GetInternalError())
+			if os.Getenv("C10_DEBUG") != "" {
+				fmt.Fprintf(os.Stderr, "  item error: %v\n", it.GetError())
+			}
+			msg := it.GetError().GetMessage()
+			if strings.Contains(msg, "context canceled") || strings.Contains(msg, "Request Cancelled") {
+				out[i] = "err:2058" // a cancellation surfaces as internal_error in a batch item
+			} else {
+				out[i] = fmt.Sprintf("err:item:%d:%d", it.GetError().GetInputError(), it.GetError().GetInternalError())
+			}
 		case it.GetAllowed():
 			out[i] = "allow"
 		default:
@@ -593,11 +657,13 @@ func (in *interner) code(a string) int {
 		return 0
 	case "allow":
 		return 1
+	case "err:2058": // Request Cancelled (the model's cancelled_code)
+		return 2
 	}
 	if c, ok := in.m[a]; ok {
 		return c
 	}
-	c := 2 + len(in.m)
+	c := 3 + len(in.m)
 	in.m[a] = c
 	return c
 }
@@ -646,6 +712,9 @@ func runCase(ctx context.Context, w *rec.Writer, p *Plan) {
 	var ops []rec.V
 	emit := func(api int, pr Probe, cons int, obs, rf string, unstable bool) {
 		hi := cons == 2
+		if os.Getenv("C10_DEBUG") != "" {
+			fmt.Fprintf(os.Stderr, "req api=%d cons=%d probe=%+v obs=%q ref=%q unstable=%v\n", api, cons, pr, obs, rf, unstable)
+		}
 		ops = append(ops, rec.L(rec.I(1), rec.I(api), rec.Bool(hi), rec.I(pr.Key), rec.I(in.code(rf)), rec.I(in.code(obs)),
 			rec.Bool(unstable), clobber(pr)))
 		name := []string{"check", "batch_item", "list_objects", "list_users"}[api]
@@ -654,6 +723,15 @@ func runCase(ctx context.Context, w *rec.Writer, p *Plan) {
 		if pr.Bad {
 			w.Stat("req_malformed", 1)
 		}
+		if rf == "allow" {
+			w.Stat("reference_allowed", 1)
+		} else if rf == "deny" {
+			w.Stat("reference_denied", 1)
+		} else if strings.HasPrefix(rf, "set:") && rf != "set:" {
+			w.Stat("reference_nonempty_set", 1)
+		} else if rf == "set:" {
+			w.Stat("reference_empty_set", 1)
+		}
 		if prev, ok := lastSeen[pr.Key]; ok && prev != rf {
 			if hi {
 				w.Stat("higher_after_answer_changed", 1)
@@ -661,7 +739,9 @@ func runCase(ctx context.Context, w *rec.Writer, p *Plan) {
 				w.Stat("cached_after_answer_changed", 1)
 			}
 		}
-		if !hi && obs != rf {
+		if !hi && obs == "err:2058" && rf != obs {
+			w.Stat("cached_answer_cancelled_by_shared_iterator", 1)
+		} else if !hi && obs != rf {
 			w.Stat("cached_answer_stale", 1)
 		}
 		if hi && obs != rf && !unstable {
